@@ -85,7 +85,8 @@ class Verifier(Calls):
         res = []
         for s, v in self.ev(stmt.exc, st):
             if isinstance(v, VClass):
-                v = self.new_object(s, v.name) if v.name in REG.classes else VAny()
+                cn = REG.class_name(v.module, v.name)
+                v = self.new_object(s, cn) if cn else VAny()
             res.append((s, 'raise', v))
         return res
 
@@ -533,7 +534,8 @@ class Verifier(Calls):
                 if v.what[0] == 'pred':
                     return ('builtin', 'pred', None)
             if isinstance(v, VClass):
-                key, _ = self.find_method(v.name, '__init__') if v.name in REG.classes else (None, None)
+                cn = REG.class_name(v.module, v.name)
+                key, _ = self.find_method(cn, '__init__') if cn else (None, None)
                 return ('ctor', key, None)
             return None
         if isinstance(f, ast.Attribute):
@@ -564,7 +566,8 @@ class Verifier(Calls):
                 if r and r[0] == 'func':
                     return ('repo', r[1], None)
                 if r and r[0] == 'class':
-                    key, _ = self.find_method(r[2], '__init__') if r[2] in REG.classes else (None, None)
+                    cn = REG.class_name(r[1], r[2])
+                    key, _ = self.find_method(cn, '__init__') if cn else (None, None)
                     return ('ctor', key, None)
         return None
 
